@@ -51,6 +51,8 @@ fn setup(j: &mut Joypad, buttons: u8, sel: u8) {
 pub fn run(ctx: &mut Ctx) {
   let mut evaluations = 0u64;
   let mut falling = 0u64;
+  let mut pairs = 0u64;
+  let mut pairs_first_only = 0u64;
   let vram = vec![0u8; 0x2000].into_boxed_slice();
   let oam = vec![0u8; 0xa0].into_boxed_slice();
   for buttons in 0..=255u16 {
@@ -146,12 +148,79 @@ pub fn run(ctx: &mut Ctx) {
         ctx.distinct_key(hash_words(&[buttons as u64, seli as u64, action as u64]));
       }
     }
+    // ---- two actions before the request is collected: a request raised by the first
+    // must survive a second action that raises none ("is reported once" - not "unless
+    // something else happens first")
+    for seli in 0..4u8 {
+      let sel = seli << 4;
+      for a1 in 0..20u8 {
+        for a2 in 0..20u8 {
+          let step = |b: u8, s: u8, a: u8| -> (u8, u8) {
+            if a < 8 {
+              (b | (1 << a), s)
+            } else if a < 16 {
+              (b & !(1 << (a - 8)), s)
+            } else {
+              (b, (a - 16) << 4)
+            }
+          };
+          let (b1, s1) = step(buttons, sel, a1);
+          let (b2, s2) = step(b1, s1, a2);
+          let f1 = lines(buttons, sel) & !lines(b1, s1) != 0;
+          let f2 = lines(b1, s1) & !lines(b2, s2) != 0;
+          let want = f1 || f2;
+          let mut j = Joypad::new();
+          setup(&mut j, buttons, sel);
+          for &a in [a1, a2].iter() {
+            if a < 8 {
+              j.press_button(button(a));
+            } else if a < 16 {
+              j.release_button(button(a - 8));
+            } else {
+              j.set_value(((a - 16) << 4) | 0xcf);
+            }
+          }
+          let got_p1 = j.get_value() & 0x3f;
+          let irq1 = j.get_interrupt().as_u8() & 0x10 != 0;
+          let irq2 = j.get_interrupt().as_u8() != 0;
+          evaluations += 1;
+          pairs += 1;
+          if f1 && !f2 {
+            pairs_first_only += 1;
+          }
+          if got_p1 != p1(b2, s2) || irq1 != want || irq2 {
+            let what = if got_p1 != p1(b2, s2) {
+              "p1"
+            } else if irq2 {
+              "interrupt:reported-twice"
+            } else if want {
+              if f1 && !f2 {
+                "interrupt:lost-by-a-later-action"
+              } else {
+                "interrupt:missing"
+              }
+            } else {
+              "interrupt:spurious"
+            };
+            ctx.violation(
+              &format!("C17:two-actions:{}", what),
+              &format!(
+                "buttons {:08b} (Down..A), selection bits {:02X}, actions #{} then #{} (0-7 press, 8-15 release, 16-19 selection write) without collecting in between: P1 {:02X} (reference {:02X}), interrupt requested={} (reference {}: first action falling={}, second falling={}), second collection={}",
+                buttons, sel, a1, a2, got_p1, p1(b2, s2), irq1, want, f1, f2, irq2
+              ),
+            );
+          }
+        }
+      }
+    }
     if ctx.want_sample() && buttons % 67 == 5 {
       ctx.sample(&format!("buttons {:08b} x 4 selections x 20 actions (8 presses, 8 releases, 4 selection writes): P1 & 0x3F and the interrupt request, on the Joypad and through IO (FF00 read-back, IF bit 4 collected by run_clock_cycles, reported once)", buttons));
     }
   }
   ctx.count("evaluations", evaluations);
   ctx.count("transitions-with-a-falling-line", falling);
+  ctx.count("two-action-sequences", pairs);
+  ctx.count("two-action-sequences:only-the-first-falls", pairs_first_only);
 }
 
 pub fn on_crash(intent: &[u64], text: &str, status: &str, _err: &str) -> Option<(String, String)> {
